@@ -2,7 +2,6 @@
 and in requests: cryptographic parameters, key wrapping data, managed objects, attributes.
 All specs are JSON-able; enumerations are numbers, byte strings are hex."""
 from vlib import ttlvref as T
-from vlib.c19_wire import *  # noqa: F401,F403  (tag literals, helpers)
 from vlib import c19_wire as W
 
 # ----------------------------------------------------------------------------- crypto parameters
